@@ -23,6 +23,41 @@ OPS = [
 DELETABLE = re.compile(r"^\s*(self\.[a-z_\.]+\s*[-+]?=\s*[^;]+;|any_vec_raw\.len\s*[-+]?=\s*[^;]+;|mem::forget\([a-z_]+\);|self\.op\.consume\(\);|[a-z_\.]*reserve[a-z_]*\([^;]*\);|drop_elements_range\($|cloned\.len = self\.len;|ptr = ptr\.add\([^;]+\);|self\.type_check\(&value\);|self\.raw\.type_check\(&value\);|self\.raw\.index_check\(index\);|self\.this\(\)\.index_check\(index\);|assert[a-z_!]*\(.*\);)\s*$")
 
 
+TYPE_OPS = [
+    (r"\+ Send\b", ""), (r"\+ Sync\b", ""), (r": Send\b", ": Sized"), (r": Sync\b", ": Sized"), (r"Sync \+ ", ""), (r"Send \+ ", ""),
+    (r"\bSync\b", "Send"), (r"\bSend\b", "Sync"), (r"&mut self", "&self"), (r"&'a mut ", "&'a "), (r"\+ '_", "+ 'a"), (r"<'_, ", "<'static, "),
+    (r"&'a mut AnyVecRaw", "&'a AnyVecRaw"), (r"PhantomData<&'a mut ", "PhantomData<&'a "), (r"T: Clone", "T: Sized"), (r"\+ Cloneable", ""),
+    (r"M::Mem: MemResizable", "M::Mem: Mem"), (r"M: MemBuilderSizeable", "M: MemBuilder"), (r"-> &'a ", "-> &'static "),
+]
+
+
+def gen_type_mutants():
+    muts = []
+    for dp, _, fs in os.walk(os.path.join(REPO, "src")):
+        for f in sorted(fs):
+            if not f.endswith(".rs"):
+                continue
+            path = os.path.join(dp, f)
+            lines = open(path).read().split("\n")
+            for i, line in enumerate(lines):
+                st = line.strip()
+                if st.startswith("//") or st.startswith("use ") or not st:
+                    continue
+                code = line.split("//")[0]
+                for pat, rep in TYPE_OPS:
+                    for m in re.finditer(pat, code):
+                        new = code[:m.start()] + m.expand(rep) + code[m.end():]
+                        if new != code:
+                            muts.append((path, i, line, new + line[len(code):], f"{pat} -> {rep}"))
+    seen, out = set(), []
+    for m in muts:
+        k = (m[0], m[1], m[3])
+        if k not in seen:
+            seen.add(k)
+            out.append(m)
+    return out
+
+
 def gen_mutants(only=None):
     muts = []
     for dp, _, fs in os.walk(os.path.join(REPO, "src")):
@@ -103,13 +138,19 @@ def main():
     only = args[args.index("--only") + 1] if "--only" in args else None
     limit = int(args[args.index("--limit") + 1]) if "--limit" in args else None
     out = args[args.index("--out") + 1] if "--out" in args else "/tmp/ms/results.jsonl"
-    os.makedirs(WORK, exist_ok=True)
-    muts = gen_mutants(only)
+    global PROPS, WORK
+    if "--type-level" in args:
+        muts = gen_type_mutants()
+        PROPS = ["C15", "C16"]
+        WORK = "/tmp/mst"
+    else:
+        muts = gen_mutants(only)
     if "--list" in args:
         for k, m in enumerate(muts):
             print(k, os.path.relpath(m[0], REPO), m[1] + 1, m[4], "|", m[3].strip())
         print(len(muts), "mutants")
         return
+    os.makedirs(WORK, exist_ok=True)
     done = set()
     if os.path.exists(out):
         for l in open(out):
